@@ -3,10 +3,16 @@ package main
 // Skolemisation of top-level universal goals: proving `forall k :: body` is proving `body` for fresh constants; the
 // solvers answer `unknown` on some negated universals (arrays + MBQI) that are immediate once skolemised.
 
-import "strings"
+import (
+	"os"
+	"strings"
+)
 
 // skolemizeGoal rewrites "(forall ((n s) ...) body)" into body, declaring the bound names as constants.
 func (fv *FnVerifier) skolemizeGoal(goal string) string {
+	if os.Getenv("GOVC_NOSKOLEM") != "" {
+		return goal
+	}
 	for i := 0; i < 4; i++ {
 		g, ok := fv.skolemOnce(goal)
 		if !ok {
